@@ -2,7 +2,10 @@
 
 package simrt
 
-import "runtime"
+import (
+	"runtime"
+	"unsafe"
+)
 
 // RaceBuild reports whether the binary was built with the race detector.
 const RaceBuild = true
@@ -12,3 +15,14 @@ func raceDisable() { runtime.RaceDisable() }
 
 //go:norace
 func raceEnable() { runtime.RaceEnable() }
+
+// racePublish / raceCollect: everything a simulated goroutine did before it
+// parked or finished happens before what the scheduler's goroutine does after
+// the run (history building, oracles). The edge is collected only once, after
+// the run, so it adds no ordering between simulated goroutines.
+//
+//go:norace
+func racePublish(addr unsafe.Pointer) { runtime.RaceReleaseMerge(addr) }
+
+//go:norace
+func raceCollect(addr unsafe.Pointer) { runtime.RaceAcquire(addr) }
